@@ -24,7 +24,7 @@ WRONG = {
     "list:result": [("scalar-number", INT(3), 3), ("scalar-zero", INT(0), 0), ("tuple", TUPLE("a", WORD("b")), {"a": "b"}), ("number-item", LIST([INT(7)]), [7])],
     "result": [("number", INT(5), 5), ("list", LIST([INT(1)]), [1]), ("float", FLOAT(0.5), 0.5), ("zero", INT(0), 0), ("empty-list", LIST([]), [])],
     "boolean": [("none", WORD("None"), None), ("word", WORD("maybe"), "maybe"), ("decimal", FLOAT(0.5), 0.5), ("list", LIST([INT(1)]), [1]), ("empty-string", QSTR(""), ""), ("empty-list", LIST([]), [])],
-    "datatype": [("unknown-name", WORD("Complex"), "Complex"), ("number", INT(4), 4), ("list", LIST([WORD("Float")]), ["Float"])],
+    "datatype": [("netcdf-only-name", WORD("Fuzzy"), "Fuzzy"), ("netcdf-only-name-quoted", QSTR("Positive Float"), "Positive Float"), ("unknown-name", WORD("Complex"), "Complex"), ("number", INT(4), 4), ("list", LIST([WORD("Float")]), ["Float"])],
     "tuple": [("number", INT(4), 4), ("word", WORD("abc"), "abc"), ("list", LIST([INT(1), INT(2)]), [1, 2]), ("zero", INT(0), 0), ("zero-float", FLOAT(0.0), 0.0),
               ("empty-string", QSTR(""), ""), ("nested-list", LIST([LIST([WORD("a"), WORD("b")])]), [["a", "b"]]), ("word-list", LIST([WORD("x")]), ["x"])],
 }
@@ -81,6 +81,7 @@ def applicable(model, kinds, req):
                     sites.append(("wrong-fuzziness", i, p, None))
             if k == "path" and c["cmd"] == "EEMSRead":
                 sites.append(("bad-path", i, p, None))
+                sites.append(("bad-path", i, p, "same-as-an-output"))
     return sites
 
 
@@ -128,6 +129,8 @@ def inject(model, site, rng):
     elif kind == "wrong-kind":
         k = models.param_kinds(models.model_libs(model))[c["cmd"]][p]
         label, raw, py = [w for w in WRONG[k] if w[0] == variant][0]
+        if variant.startswith("netcdf-only") and model.get("libs") == "nc":
+            return None         # those names are type names of the NetCDF reader
         c.setdefault("raw_ast", {})[p] = copy.deepcopy(raw)
         c["args"][p] = py
         exp.update(error="ParameterNotValid", where="arg", attrs={}, declared=k)
@@ -193,6 +196,12 @@ def inject(model, site, rng):
         exp.update(error="ResultNotFuzzy" if wants_fuzzy else "ResultIsFuzzy", where="arg", attrs={"result": s})
     elif kind == "bad-path":
         c["args"][p] = "no_such_dir/missing.csv" if model.get("libs") != "nc" else "no_such_dir/missing.nc"
+        if variant == "same-as-an-output":
+            # the missing input is the very file some writer of the model is going to produce
+            outs = [x["args"]["OutFileName"] for x in cmds if isinstance(x["args"].get("OutFileName"), str) and x is not c]
+            if not outs:
+                return None
+            c["args"][p] = rng.choice(outs)
         exp.update(error="PathDoesNotExist", where="arg", attrs={})
     else:
         return None
